@@ -20,9 +20,14 @@ TYPES = {
     "arr": ("Arr<N>", "Arr::<N>::default()", None, None, None),           # const generic marker
     "boxstr": ("Box<str>", 'Box::<str>::from("")', 'Box::<str>::from("bx")', 'Box::<str>::from("by")', None),
     "sstr": ("&'static str", '""', '"st"', '"su"', None),
+    "trickystr": ("TrickyStr", "TrickyStr(String::new())", 'TrickyStr(String::from("ta"))', 'TrickyStr(String::from("tb"))', None),
     "i64": ("i64", "0i64", "-9i64", "77i64", None),
     "u16": ("u16", "0u16", "513u16", "2u16", None),
     "usize": ("usize", "0usize", "3usize", "9usize", None),
+    # a payload that mentions the enum itself (special definitions only: the enum supplies its own Default)
+    "boxself": ("Box<Self>", "Box::new(::core::default::Default::default())", "Box::new(::core::default::Default::default())",
+                "Box::new(::core::default::Default::default())", None),
+    "mutref": ("&'a mut u8", None, None, None, None),                     # only with a lifetime parameter; values need a place (strgen)
     "char": ("char", "'\\0'", "'q'", "'r'", None),
 }
 # instantiations of generic parameters used by drivers
@@ -36,12 +41,14 @@ GENERICS = {
     "constdef": dict(decl="<const N: usize = 2>", impl_decl="<const N: usize>", inst="<3>", tparam=None),
     "const": dict(decl="<const N: usize>", inst="<3>", tparam=None),
     "tyconst": dict(decl="<T: Default + Clone + PartialEq + ::core::fmt::Debug, const N: usize>", inst="<u16, 2>", tparam="u16"),
+    # a parameter that is only Debug, instantiated with a type that has no Display (C17: `{0:?}` needs no Display bound)
+    "tydbg": dict(decl="<T: ::core::fmt::Debug + Clone + PartialEq>", inst="<DbgOnly>", tparam=None),
 }
 
 
 # identifiers that are keywords are written as raw identifiers (r#type); the identifier itself - what every derive names the
 # variant after - is the word without the prefix
-KEYWORDS = {"type", "fn", "match", "loop", "async", "move", "ref", "use", "where", "while", "yield", "box", "dyn", "impl", "try", "gen"}
+KEYWORDS = {"type", "fn", "match", "loop", "async", "move", "ref", "use", "where", "while", "yield", "box", "dyn", "impl", "try", "gen", "return", "break", "continue", "else", "static", "const"}
 
 
 def rs_ident(name):
@@ -191,6 +198,9 @@ def variant_attr_items(v):
 
 def print_variant(v, split, with_strum=True, indent="    "):
     docs = ["%s#[doc = %s]" % (indent, rs_str(d)) for d in v["docs"]]
+    # #[doc(..)] LIST attributes (hidden, alias) are not documentation text; they may stand before / between / after the doc lines
+    for pos, x in v.get("docattrs", []):
+        docs.insert(min(pos, len(docs)), indent + x)
     strum = []
     items = variant_attr_items(v) if with_strum else []
     if items:
@@ -288,7 +298,14 @@ def wrap_in_macro(text, name):
     """the same item, declared through a macro_rules! helper; paths the user passes to strum (parse_err_fn / parse_err_ty) arrive
     as macro arguments, i.e. with the caller's syntax context"""
     import re
-    args, params = [], []
+    # the enum's own name and its integer repr arrive from the caller as well (`$name:ident`, `$repr:ty`)
+    args, params = [name], ["$name:ident"]
+    text = re.sub(r"\benum %s\b" % re.escape(name), "enum $name", text, count=1)
+    m = re.search(r"#\[repr\((u8|i8|u16|i16|u32|i32|u64|i64|usize|isize)\)\]", text)
+    if m:
+        text = text.replace(m.group(0), "#[repr($repr)]", 1)
+        params.append("$repr:ty")
+        args.append(m.group(1))
     for kw, frag in (("parse_err_fn", "path"), ("parse_err_ty", "ty")):
         m = re.search(kw + r" = ([^,\]\)]+(?:<[^>]*>)?)", text)
         if m:
@@ -364,13 +381,67 @@ def expected_payload(E, v, honour_default_with=True):
     return xs
 
 
+def impl_header(E):
+    g = GENERICS[E["generics"]]
+    tg = {"none": "", "ty": "<T>", "tywhere": "<T>", "lt": "<'a>", "const": "<N>", "tyconst": "<T, N>", "tydef": "<T>", "constdef": "<N>", "tydbg": "<T>"}[E["generics"]]
+    return "impl%s %s%s%s" % (g.get("impl_decl", g["decl"]), E["name"], tg, g.get("where", ""))
+
+
+DECOYS = {
+    "EnumMessage": ['pub fn get_message(&self) -> Option<&\'static str> { Some("inherent decoy") }',
+                    'pub fn get_detailed_message(&self) -> Option<&\'static str> { Some("inherent decoy") }',
+                    'pub fn get_documentation(&self) -> Option<&\'static str> { Some("inherent decoy") }',
+                    'pub fn get_serializations(&self) -> &\'static [&\'static str] { &["inherent decoy"] }'],
+    "EnumProperty": ['pub fn get_str(&self, _p: &str) -> Option<&\'static str> { Some("inherent decoy") }',
+                     'pub fn get_int(&self, _p: &str) -> Option<i64> { Some(-77) }',
+                     'pub fn get_bool(&self, _p: &str) -> Option<bool> { Some(true) }'],
+}
+
+
+DECOYS.update({
+    # other signatures than the trait functions: picking one of these up is a compile error
+    "EnumString": ['pub fn from_str(_a: u8, _b: u8) -> u8 { 0 }', 'pub fn try_from(_a: u8, _b: u8) -> u8 { 0 }'],
+    "Display": ['pub fn fmt(&self, _a: u8) -> u8 { 0 }', 'pub fn to_string(&self, _a: u8) -> u8 { 0 }'],
+    "AsRefStr": ['pub fn as_ref(&self, _a: u8) -> u8 { 0 }'],
+    "IntoStaticStr": ['pub fn into(&self, _a: u8) -> u8 { 0 }', 'pub fn from(_a: u8, _b: u8) -> u8 { 0 }'],
+    "VariantNames": ['pub const VARIANTS: u8 = 0;'],
+    "EnumIter": ['pub fn iter(_a: u8) -> u8 { 0 }', 'pub fn get(&self, _a: u8, _b: u8) -> u8 { 0 }'],
+    "EnumCount": ['pub const COUNT: u8 = 0;'],
+    "EnumDiscriminants": ['pub fn into(&self, _a: u8) -> u8 { 0 }', 'pub fn discriminant(&self, _a: u8) -> u8 { 0 }', 'pub fn from(_a: u8, _b: u8) -> u8 { 0 }'],
+    "EnumTable": ['pub fn index(&self, _a: u8, _b: u8) -> u8 { 0 }'],
+})
+# a helper trait of the caller's crate that is implemented for every type and has a method named like a helper of a generated type
+BLANKET_TRAIT = ("pub trait NthRemaining: Sized { fn get(self, _i: usize) -> Option<u8> { None } }\n"
+                 "impl<T> NthRemaining for T {}\n")
+
+
+def decoys(E, derives):
+    """decoy_impl for several derives at once (names that occur twice are kept once)"""
+    seen, ms = set(), []
+    for d in derives:
+        for m in DECOYS.get(d, []):
+            name = m.split("(")[0].split(":")[0].split()[-1]
+            if name not in seen:
+                seen.add(name)
+                ms.append(m)
+    if not ms:
+        return ""
+    return "%s {\n%s\n}\n" % (impl_header(E), "\n".join("    " + m for m in ms))
+
+
+def decoy_impl(E, derive):
+    """inherent methods with the names of the derive's trait methods and other results: generated code that reaches a trait
+    method through method-call syntax on the user's type would pick these up; drivers therefore call the traits by path"""
+    return "%s {\n%s\n}\n" % (impl_header(E), "\n".join("    " + m for m in DECOYS[derive]))
+
+
 def helper_impl(E):
     """impl block with decl_index / payload_ok that does not involve strum"""
     g = GENERICS[E["generics"]]
     n = E["name"]
     decl = g["decl"]
     # type generics without bounds
-    tg = {"none": "", "ty": "<T>", "tywhere": "<T>", "lt": "<'a>", "const": "<N>", "tyconst": "<T, N>", "tydef": "<T>", "constdef": "<N>"}[E["generics"]]
+    tg = {"none": "", "ty": "<T>", "tywhere": "<T>", "lt": "<'a>", "const": "<N>", "tyconst": "<T, N>", "tydef": "<T>", "constdef": "<N>", "tydbg": "<T>"}[E["generics"]]
     lines = ["impl%s %s%s%s {" % (g.get("impl_decl", decl), n, tg, g.get("where", ""))]
     lines.append("    pub fn decl_index(&self) -> usize { match self {")
     for i, v in enumerate(E["variants"]):
